@@ -285,6 +285,9 @@ static MockExpectedCall_c gExpectedCall = {
         andReturnFunctionPointerValue_c,
 };
 
+/* The actual call table asks the actual call itself: another scope may have been selected since the call was made. */
+static int actualCallHasReturnValue_c() { return actualCall->hasReturnValue() ? 1 : 0; }
+
 static MockActualCall_c gActualCall = {
         withActualBoolParameters_c,
         withActualIntParameters_c,
@@ -302,7 +305,7 @@ static MockActualCall_c gActualCall = {
         withActualParameterOfType_c,
         withActualOutputParameter_c,
         withActualOutputParameterOfType_c,
-        hasReturnValue_c,
+        actualCallHasReturnValue_c,
         returnValue_c,
         boolReturnValue_c,
         returnBoolValueOrDefault_c,
@@ -854,7 +857,7 @@ int boolReturnValue_c()
 
 int returnBoolValueOrDefault_c(int defaultValue)
 {
-    if (!hasReturnValue_c()) {
+    if (!actualCall->hasReturnValue()) {
         return defaultValue;
     }
     return boolReturnValue_c();
@@ -867,7 +870,7 @@ int intReturnValue_c()
 
 int returnIntValueOrDefault_c(int defaultValue)
 {
-    if (!hasReturnValue_c()) {
+    if (!actualCall->hasReturnValue()) {
         return defaultValue;
     }
     return intReturnValue_c();
@@ -880,7 +883,7 @@ unsigned int unsignedIntReturnValue_c()
 
 unsigned int returnUnsignedIntValueOrDefault_c(unsigned int defaultValue)
 {
-    if (!hasReturnValue_c()) {
+    if (!actualCall->hasReturnValue()) {
         return defaultValue;
     }
     return unsignedIntReturnValue_c();
@@ -893,7 +896,7 @@ long int longIntReturnValue_c()
 
 long int returnLongIntValueOrDefault_c(long int defaultValue)
 {
-    if (!hasReturnValue_c()) {
+    if (!actualCall->hasReturnValue()) {
         return defaultValue;
     }
     return longIntReturnValue_c();
@@ -906,7 +909,7 @@ unsigned long int unsignedLongIntReturnValue_c()
 
 unsigned long int returnUnsignedLongIntValueOrDefault_c(unsigned long int defaultValue)
 {
-    if (!hasReturnValue_c()) {
+    if (!actualCall->hasReturnValue()) {
         return defaultValue;
     }
     return unsignedLongIntReturnValue_c();
@@ -921,7 +924,7 @@ cpputest_longlong longLongIntReturnValue_c()
 
 cpputest_longlong returnLongLongIntValueOrDefault_c(cpputest_longlong defaultValue)
 {
-    if (!hasReturnValue_c()) {
+    if (!actualCall->hasReturnValue()) {
         return defaultValue;
     }
     return longLongIntReturnValue_c();
@@ -934,7 +937,7 @@ cpputest_ulonglong unsignedLongLongIntReturnValue_c()
 
 cpputest_ulonglong returnUnsignedLongLongIntValueOrDefault_c(cpputest_ulonglong defaultValue)
 {
-    if (!hasReturnValue_c()) {
+    if (!actualCall->hasReturnValue()) {
         return defaultValue;
     }
     return unsignedLongLongIntReturnValue_c();
@@ -979,7 +982,7 @@ const char* stringReturnValue_c()
 
 const char* returnStringValueOrDefault_c(const char * defaultValue)
 {
-    if (!hasReturnValue_c()) {
+    if (!actualCall->hasReturnValue()) {
         return defaultValue;
     }
     return stringReturnValue_c();
@@ -992,7 +995,7 @@ double doubleReturnValue_c()
 
 double returnDoubleValueOrDefault_c(double defaultValue)
 {
-    if (!hasReturnValue_c()) {
+    if (!actualCall->hasReturnValue()) {
         return defaultValue;
     }
     return doubleReturnValue_c();
@@ -1005,7 +1008,7 @@ void* pointerReturnValue_c()
 
 void* returnPointerValueOrDefault_c(void * defaultValue)
 {
-    if (!hasReturnValue_c()) {
+    if (!actualCall->hasReturnValue()) {
         return defaultValue;
     }
     return pointerReturnValue_c();
@@ -1018,7 +1021,7 @@ const void* constPointerReturnValue_c()
 
 const void* returnConstPointerValueOrDefault_c(const void * defaultValue)
 {
-    if (!hasReturnValue_c()) {
+    if (!actualCall->hasReturnValue()) {
         return defaultValue;
     }
     return constPointerReturnValue_c();
@@ -1031,7 +1034,7 @@ void (*functionPointerReturnValue_c())()
 
 void (*returnFunctionPointerValueOrDefault_c(void (*defaultValue)()))()
 {
-    if (!hasReturnValue_c()) {
+    if (!actualCall->hasReturnValue()) {
         return defaultValue;
     }
     return functionPointerReturnValue_c();
